@@ -22,20 +22,25 @@ def manifold_predicate(sc):
         if e['type'] != 'call' or not e['ret']: continue
         r = e['ret']
         tol = r['tol']
+        if sc.get('useInf') and 'qerr_inf' in r:
+            # "within tolerance" is meant in the norm the integrator was asked to use: setUseInfinityNorm(true)
+            r = dict(r); r.update({'qerr': r['qerr_inf'], 'uerr': r['uerr_inf'], 'aqerr': r['aqerr_inf'], 'auerr': r['auerr_inf']})
+            norm = 'infinity norm'
+        else: norm = 'RMS norm'
         # the advanced state (what integration resumes from; after ReachedEventTrigger: what the handler is given) must
         # be on the manifold whatever the project-interpolated-states option says
         n += 1
         what = 'advanced state (handed to the event handler, integration resumes from it)' if r['status'] == 'ReachedEventTrigger' else 'advanced state (integration resumes from it)'
         if not (r['aqerr'] <= tol * SLACK):
-            fails.append(('adv-qerr', '%s at t=%s after %s: |qerr|=%.3g > tol=%.3g (ratio %.1f), projectInterpolatedStates=%d' % (what, C19.hx(r['adv']), r['status'], r['aqerr'], tol, r['aqerr'] / tol, sc['projInterp']), i))
+            fails.append(('adv-qerr', '%s at t=%s after %s: |qerr|=%.3g > tol=%.3g (ratio %.1f, %s), projectInterpolatedStates=%d' % (what, C19.hx(r['adv']), r['status'], r['aqerr'], tol, r['aqerr'] / tol, norm, sc['projInterp']), i))
         if not (r['auerr'] <= tol * SLACK):
-            fails.append(('adv-uerr', '%s at t=%s after %s: |uerr|=%.3g > tol=%.3g (ratio %.1f), projectInterpolatedStates=%d' % (what, C19.hx(r['adv']), r['status'], r['auerr'], tol, r['auerr'] / tol, sc['projInterp']), i))
+            fails.append(('adv-uerr', '%s at t=%s after %s: |uerr|=%.3g > tol=%.3g (ratio %.1f, %s), projectInterpolatedStates=%d' % (what, C19.hx(r['adv']), r['status'], r['auerr'], tol, r['auerr'] / tol, norm, sc['projInterp']), i))
         if r['interp'] and not sc['projInterp']: continue
         n += 1
         if not (r['qerr'] <= tol * SLACK):
-            fails.append(('qerr', '%s state at t=%s (%s): |qerr|=%.3g > tol=%.3g' % ('interpolated' if r['interp'] else 'step', C19.hx(r['t']), r['status'], r['qerr'], tol), i))
+            fails.append(('qerr', '%s state at t=%s (%s): |qerr|=%.3g > tol=%.3g (%s)' % ('interpolated' if r['interp'] else 'step', C19.hx(r['t']), r['status'], r['qerr'], tol, norm), i))
         if not (r['uerr'] <= tol * SLACK):
-            fails.append(('uerr', '%s state at t=%s (%s): |uerr|=%.3g > tol=%.3g (ratio %.1f)' % ('interpolated' if r['interp'] else 'step', C19.hx(r['t']), r['status'], r['uerr'], tol, r['uerr'] / tol), i))
+            fails.append(('uerr', '%s state at t=%s (%s): |uerr|=%.3g > tol=%.3g (ratio %.1f, %s)' % ('interpolated' if r['interp'] else 'step', C19.hx(r['t']), r['status'], r['uerr'], tol, r['uerr'] / tol, norm), i))
     return n, fails
 
 def backup_events(sc, e):
@@ -216,7 +221,7 @@ def run(ctx):
             n, fails = manifold_predicate(sc); evals += n
             for e in sc['ev']:
                 if e['type'] == 'call' and e['ret']:
-                    r = e['ret']; paths.add((sc['name'], 'interpolated' if r['interp'] else 'step', bool(sc['projInterp'])))
+                    r = e['ret']; paths.add((sc['name'], 'interpolated' if r['interp'] else 'step', bool(sc['projInterp']), 'inf' if sc.get('useInf') else 'rms'))
                     if not (r['interp'] and not sc['projInterp']) and r['tol'] > 0:
                         worst[sc['name']] = max(worst.get(sc['name'], 0.0), r['qerr'] / r['tol'], r['uerr'] / r['tol'])
             for kind, desc, i in fails[:1]:
@@ -240,7 +245,7 @@ def run(ctx):
                 if len(samples) < 4 and n2: samples.append('%s acc=%g projInterp=%d: %d calls replayed' % (sc['name'], sc['acc'], sc['projInterp'], n2))
     evals += witness_cpodes_manifold(ctx, exe)
     evals += witness_min_step(ctx, exe)
-    ctx.add_cases(evals + nrep, len(paths), samples or ['%s %s-state projInterp=%s' % p for p in sorted(paths)[:6]])
+    ctx.add_cases(evals + nrep, len(paths), samples or ['%s %s-state projInterp=%s norm=%s' % p for p in sorted(paths)[:6]])
     ctx.cov['rule'] = ('one evaluation = one constraint-error test of a state of a real integrator on a constrained system (double pendulum closed by a rod; '
                        '9 integrators, accuracy 1e-2/1e-3/1e-5, constraint tolerance default/1e-6/1e-7, projection of interpolated states on/off, witness '
                        'functions on time, angle and cos(4.3t+c) so that events are localized inside steps, random request scripts): after every stepTo the '
